@@ -35,8 +35,11 @@ PHIS = [0.0, math.pi / 4, math.pi, 3 * math.pi / 2, 0.3, -2.0, 7 * math.pi / 4]
 
 
 def _observe(c):
+    # the full unitary is part of the observable state: a drawer that reorders the modes of a live
+    # component (e.g. a descending 'H' beam splitter) leaves every structural count as it was
+    u = np.round(np.asarray(c.U_full, dtype=complex), 9) + 0.0
     return (c.n_modes, c.input_modes, sorted(c.heralds["input"].items()), sorted(c.heralds["output"].items()),
-            list(c._internal_modes), len(c._get_circuit_spec()))
+            list(c._internal_modes), len(c._get_circuit_spec()), u.shape, u.tobytes())
 
 
 def _add(c, kind, a, b, v):
